@@ -364,62 +364,46 @@ theorem hstep_load_of {s : Store} {l : Lnk} {b : Bytes} {c : Codec} (hc : codecs
 /-! ## verdicts of `fill` / `loadRaw`, exactly -/
 
 theorem fill_ok_iff (l : Lnk) (s : Stream) (d : DecRun) :
-    fill H false l s d = .ok ↔ d.failed = false ∧ hashesTo H l (s.deliverable.take d.pulled) = true := by
+    fill H false l s d = .ok ↔ d.failed = false ∧ s.failAt = none ∧ hashesTo H l s.data = true := by
   unfold fill
   simp only [Bool.false_eq_true, if_false]
-  cases hf : d.failed with
-  | true =>
-    simp only [if_true]
-    cases hfa : s.failAt with
-    | some f => simp
-    | none => dsimp only; split <;> simp
-  | false =>
-    simp only [Bool.false_eq_true, if_false, true_and]
-    split <;> simp_all
+  cases hfa : s.failAt with
+  | some f => simp
+  | none =>
+    dsimp only
+    cases hh : hashesTo H l s.data <;> cases hf : d.failed <;> simp
 
 theorem fill_decodeErr_iff (l : Lnk) (s : Stream) (d : DecRun) :
     fill H false l s d = .decodeErr ↔ d.failed = true ∧ s.failAt = none ∧ hashesTo H l s.data = true := by
   unfold fill
   simp only [Bool.false_eq_true, if_false]
-  cases hf : d.failed with
-  | true =>
-    simp only [if_true]
-    cases hfa : s.failAt with
-    | some f => simp
-    | none => dsimp only; split <;> simp_all
-  | false =>
-    simp only [Bool.false_eq_true, if_false, false_and, iff_false]
-    split <;> simp
+  cases hfa : s.failAt with
+  | some f => simp
+  | none =>
+    dsimp only
+    cases hh : hashesTo H l s.data <;> cases hf : d.failed <;> simp
 
+/-- an I/O error surfaces whatever the decoder did (it may even have finished before the failure point) -/
 theorem fill_ioErr_iff (l : Lnk) (s : Stream) (d : DecRun) :
-    fill H false l s d = .ioErr ↔ d.failed = true ∧ ∃ f, s.failAt = some f := by
+    fill H false l s d = .ioErr ↔ ∃ f, s.failAt = some f := by
   unfold fill
   simp only [Bool.false_eq_true, if_false]
-  cases hf : d.failed with
-  | true =>
-    simp only [if_true]
-    cases hfa : s.failAt with
-    | some f => simp
-    | none => dsimp only; split <;> simp
-  | false =>
-    simp only [Bool.false_eq_true, if_false, false_and, iff_false]
-    split <;> simp
+  cases hfa : s.failAt with
+  | some f => simp
+  | none =>
+    dsimp only
+    cases hh : hashesTo H l s.data <;> cases hf : d.failed <;> simp
 
+/-- the verdict on the hash does not depend on the decoder at all -/
 theorem fill_hashMismatch_iff (l : Lnk) (s : Stream) (d : DecRun) :
-    fill H false l s d = .hashMismatch ↔
-      (d.failed = true ∧ s.failAt = none ∧ hashesTo H l s.data = false) ∨
-      (d.failed = false ∧ hashesTo H l (s.deliverable.take d.pulled) = false) := by
+    fill H false l s d = .hashMismatch ↔ s.failAt = none ∧ hashesTo H l s.data = false := by
   unfold fill
   simp only [Bool.false_eq_true, if_false]
-  cases hf : d.failed with
-  | true =>
-    simp only [if_true]
-    cases hfa : s.failAt with
-    | some f => simp
-    | none => dsimp only; split <;> simp_all
-  | false =>
-    simp only [Bool.false_eq_true, if_false, false_and, false_or, true_and]
-    split <;> simp_all
+  cases hfa : s.failAt with
+  | some f => simp
+  | none =>
+    dsimp only
+    cases hh : hashesTo H l s.data <;> cases hf : d.failed <;> simp
 
 theorem loadRaw_eq (l : Lnk) (s : Stream) :
     loadRaw H l s =
